@@ -32,6 +32,18 @@ SPEC (a dict; everything the source does not say itself)
   ctors     {class name: {type, fields: [(keyword, type)], consts, ignore}}   keyword-only constructor calls as records
   objects   parameter names that are objects only read/written through places (`return x, obj` returns `x`)
   exits     True: the value of the definition is how the fragment was left (`PyRt.Exit`: fall / cont / brk / ret)
+  state     {type, param}: the attribute state is ONE record the spec declares elsewhere (a family of methods that call
+            each other): places of mode "s" are its fields, the definition takes it as its last parameter and returns it
+  always_res  True: the result is `PyRt.Res state α` even if nothing in the body can raise (uniform for callers)
+  tparams   type parameters of the definition (`{δ : Type}`): opaque types its spec types mention
+  state_calls  {python callee text: entry}: calls that pass the state on (statement, or whole right-hand side):
+              kind "shared": another definition over the same state record (lean, exts, args, rplaces, ret)
+              kind "method": a method of an object held in an `Option` place (recv, lean, args, ret): AttributeError on None,
+                             the external `lean : X → args → PyRt.Res X ret` returns the object afterwards
+              kind "ext":    a method outside the model that reads / writes the listed places (lean, args, reads, writes, ret)
+  maybe_attrs  places of type `Option T` that stand for attributes which may not exist yet: a read is AttributeError on `none`
+  pairdicts {place: default literal}: a dict keyed by a bool that is only read through `.get(k, default)`: the pair of
+            its values at False / True (absent = default)
 types: Int, Nat (an int known to be ≥ 0), Bool, Bytes, List T, Set T (a Python set; only `in` and `|` under `in`),
        Option T, Dict K V, anything else = an opaque type with decidable equality (only == != and assignment).
 """
@@ -90,10 +102,10 @@ def ind(s, n=2):
 
 class V:
     """a translated expression or variable: Lean term, type, known non-negative (ints)"""
-    __slots__ = ("term", "typ", "nn", "lit")
+    __slots__ = ("term", "typ", "nn", "lit", "parts")
 
-    def __init__(self, term, typ, nn=False, lit=None):
-        self.term, self.typ, self.nn, self.lit = term, typ, nn or typ == "Nat", lit
+    def __init__(self, term, typ, nn=False, lit=None, parts=None):
+        self.term, self.typ, self.nn, self.lit, self.parts = term, typ, nn or typ == "Nat", lit, parts
 
     def __repr__(self):
         return f"V({self.term}:{self.typ})"
@@ -113,8 +125,14 @@ def elem_type(t):
 TYPE_ALIAS = {"Str": "List Nat"}           # spec types that are names for Lean types (a spec may add its own: `types`)
 
 
+class RawType(str):
+    """a type given as Lean text (the type of an external function)"""
+
+
 def ty(t):
     """Lean spelling of a spec type"""
+    if isinstance(t, RawType):
+        return str(t)
     if t in TYPE_ALIAS:
         return TYPE_ALIAS[t]
     if t.startswith("Fmt:"):
@@ -211,6 +229,10 @@ class Translator:
         self.synthetic = set()
         self.owned = set()
         self.seen_types = {}
+        self.state = spec.get("state")
+        self.state_calls = dict(spec.get("state_calls", {}))
+        self.maybe_attrs = set(spec.get("maybe_attrs", ()))
+        self.pairdicts = dict(spec.get("pairdicts", {}))
         TYPE_ALIAS.clear()
         TYPE_ALIAS.update({"Str": "List Nat"})
         TYPE_ALIAS.update(spec.get("types", {}))
@@ -271,6 +293,17 @@ class Translator:
                 return f"(Sum.inr {v.term} : {ty(typ)})"
         if v.typ == "EmptyList" and typ.startswith("List "):
             return f"([] : {ty(typ)})"
+        if ("×" in typ and "×" in v.typ and not typ.startswith(("List ", "Option ", "Table ", "Set ", "Dict "))
+                and not v.typ.startswith(("List ", "Option ", "Table ", "Set ", "Dict "))):
+            want, have = split_prod(typ), split_prod(v.typ)
+            if len(want) == len(have):
+                # a tuple display (or value) whose components are coerced one by one
+                parts = []
+                for j, (w, h) in enumerate(zip(want, have)):
+                    proj = v.term + ".2" * j + (".1" if j < len(have) - 1 else "")
+                    comp = v.parts[j] if v.parts is not None and len(v.parts) == len(have) else V(f"({proj})", unparen(h))
+                    parts.append(self.coerce(comp, unparen(w), node))
+                return "(" + ", ".join(parts) + ")"
         if v.typ == "EmptyDict" and typ in self.spec.get("empty_dict", {}):
             return self.spec["empty_dict"][typ]
         self.bad(node, f"type {v.typ} where {typ} is expected")
@@ -282,18 +315,29 @@ class Translator:
             term, typ = self.consts[k]
             return V(term, typ)
         if k in self.places:
+            if k in self.pairdicts:
+                self.bad(node, "a bool-keyed dict place read other than through `.get(key, default)`")
             return self.read_place(k, env, node)
         m = getattr(self, "e_" + type(node).__name__, None)
         if m is None:
             self.bad(node, f"expression form {type(node).__name__} is outside the subset")
         return m(node, env)
 
-    def read_place(self, k, env, node):
-        v = env.get(("place", k))
-        if v is None:
-            self.bad(node, "place is not bound here")
-        if getattr(v, "initial", False) or v.term == self.places[k][1]:
-            self.init_used.add(k)
+    def read_place(self, k, env, node, raw=False):
+        _, ln, typ, mode = self.places[k]
+        if mode == "s":
+            v = V(f"{env['__st'].term}.{lname(ln)}", typ)
+        else:
+            v = env.get(("place", k))
+            if v is None:
+                self.bad(node, "place is not bound here")
+            if getattr(v, "initial", False) or v.term == self.places[k][1]:
+                self.init_used.add(k)
+        if k in self.maybe_attrs and not raw:
+            if not typ.startswith("Option "):
+                self.bad(node, "a maybe-attribute place whose type is not Option")
+            inner = elem_type(typ)
+            return V(self.hoist(f"PyRt.attrE {v.term}", inner, node), inner)
         return V(v.term, v.typ, v.nn)
 
     def e_Constant(self, node, env):
@@ -336,7 +380,8 @@ class Translator:
         els = [self.expr(e, env) for e in node.elts]
         if len(els) < 2 or any(e.typ in ("NoneType", "EmptyDict", "EmptyList") for e in els):
             self.bad(node, "tuple display with fewer than two elements or an element of unknown type")
-        return V("(" + ", ".join(e.term for e in els) + ")", " × ".join(e.typ if " " not in e.typ else f"({e.typ})" for e in els))
+        return V("(" + ", ".join(e.term for e in els) + ")", " × ".join(e.typ if " " not in e.typ else f"({e.typ})" for e in els),
+                 parts=els)
 
     def e_List(self, node, env):
         if not node.elts:
@@ -557,6 +602,8 @@ class Translator:
                 return f"(decide ({a.term} {rel} {self.coerce(b, a.typ, node)}))"
             if "|" in b.typ and is_int(a.typ):
                 return f"(decide ({self.coerce(a, b.typ, node)} {rel} {b.term}))"
+            if (a.typ == "Bytes" and is_int(b.typ)) or (is_int(a.typ) and b.typ == "Bytes"):
+                return "false" if o == "Eq" else "true"          # bytes / bytearray and int: never equal
             if is_int(a.typ) and is_int(b.typ):
                 if a.typ == b.typ:
                     return f"(decide ({a.term} {rel} {b.term}))"
@@ -746,7 +793,26 @@ class Translator:
                 except Exception as e:
                     self.bad(node, f"int() on literals raises {e!r}")
                 return self.e_Constant(ast.Constant(value=val), env)
-        if fname == "bytes.fromhex" and len(node.args) == 1 and isinstance(node.args[0], ast.Constant) and not kw:
+        if (isinstance(f, ast.Attribute) and f.attr == "get" and len(node.args) == 2 and not kw
+                and self.key(f.value) in self.pairdicts):
+            pk = self.key(f.value)
+            dflt = ast.unparse(ast.parse(self.pairdicts[pk], mode="eval").body)
+            if ast.unparse(node.args[1]) != dflt:
+                self.bad(node, f"`.get` on a bool-keyed dict place with a default other than {dflt}")
+            kx = self.expr(node.args[0], env)
+            if kx.typ != "Bool":
+                self.bad(node, f"key of type {kx.typ} for a bool-keyed dict place")
+            p = self.read_place(pk, env, node)
+            return V(f"(if {kx.term} then {p.term}.2 else {p.term}.1)", unparen(split_prod(p.typ)[0]))
+        if isinstance(f, ast.Attribute) and f.attr == "rstrip" and len(node.args) == 1 and not kw:
+            x = self.expr(f.value, env)
+            if x.typ == "Option Bytes":
+                x = V(self.hoist(f"PyRt.attrE {x.term}", "Bytes", node), "Bytes")      # None has no rstrip
+            a = self.expr(node.args[0], env)
+            if x.typ != "Bytes" or a.typ != "Bytes":
+                self.bad(node, f"rstrip on {x.typ} with {a.typ}")
+            return V(f"(PyRt.rstrip {x.term} {a.term})", "Bytes")
+        if fname in ("bytes.fromhex", "bytearray.fromhex") and len(node.args) == 1 and isinstance(node.args[0], ast.Constant) and not kw:
             try:
                 return self.e_Constant(ast.Constant(value=bytes.fromhex(node.args[0].value)), env)
             except Exception as e:
@@ -922,7 +988,14 @@ class Translator:
             _, ln, typ, mode = self.places[k]
             if mode == "r":
                 self.bad(node, "write to a place the spec declares read-only")
+            if k in self.pairdicts and v.typ == "EmptyDict":
+                d = self.e_Constant(ast.parse(self.pairdicts[k], mode="eval").body, env)
+                v = V(f"({d.term}, {d.term})", typ)
             term = self.coerce(v, typ, node)
+            if mode == "s":
+                cur = env["__st"]
+                env["__st"] = V("st'", cur.typ)
+                return env, f"let st' : {ty(cur.typ)} := {{ {cur.term} with {lname(ln)} := {term} }}"
             env[("place", k)] = V(lname(ln) + "'", typ, v.nn and typ == "Int")
             return env, f"let {lname(ln)}' : {ty(typ)} := {term}"
         self.bad(node, "assignment target is neither a local name nor a place of the spec")
@@ -938,6 +1011,16 @@ class Translator:
                 return self.block(rest, env, frame)
             self.bad(st, "write to an ignored attribute whose right-hand side is not a name, constant or empty display")
         tg = st.targets[0]
+        if (isinstance(tg, ast.Subscript) and self.key(tg) not in self.places and self.key(tg.value) in self.places
+                and not isinstance(tg.slice, ast.Slice)):
+            return self.place_item_assign(st, tg, rest, env, frame)
+        if isinstance(st.value, ast.Call) and self.key(st.value.func) in self.state_calls and isinstance(tg, ast.Name):
+            def k(v, env1):
+                if v is None:
+                    self.bad(st, "the result of a procedure is assigned")
+                env2, line = self.bind(tg, v, env1, st)
+                return line + "\n" + self.block(rest, env2, frame)
+            return self.state_call(st.value, env, frame, k)
         if isinstance(tg, ast.Subscript) and isinstance(tg.value, ast.Name) and self.key(tg) not in self.places:
             return self.subscript_assign(st, tg, rest, env, frame)
         if isinstance(st.value, ast.Name) and st.value.id in self.owned:
@@ -951,6 +1034,88 @@ class Translator:
         def inner():
             env2, line = self.bind(tg, v, env, st)
             return line + "\n" + self.block(rest, env2, frame)
+        return self.with_hoists(hs, env, frame, inner)
+
+    def place_item_assign(self, st, tg, rest, env, frame):
+        """`<place>[k] = v` where the place is a dict: a bool-keyed pair (`pairdicts`) or a table"""
+        pk = self.key(tg.value)
+        saved, self.hoists = self.hoists, []
+        try:
+            v = self.expr(st.value, env)                   # Python: the right-hand side, then the container, then the key
+            cur = self.read_place(pk, env, st)
+            k = self.expr(tg.slice, env)
+            hs = self.hoists
+        finally:
+            self.hoists = saved
+        if pk in self.pairdicts:
+            vt = unparen(split_prod(cur.typ)[0])
+            if k.typ != "Bool":
+                self.bad(st, f"key of type {k.typ} for a bool-keyed dict place")
+            new = lambda: V(f"(if {k.term} then ({cur.term}.1, {self.coerce(v, vt, st)}) else ({self.coerce(v, vt, st)}, {cur.term}.2))", cur.typ)
+        elif cur.typ.startswith("Table "):
+            kt, vt = split_table(cur.typ)
+            new = lambda: V(f"(PyRt.tableSet {cur.term} {self.coerce(k, kt, st)} {self.coerce(v, vt, st)})", cur.typ)
+        else:
+            self.bad(st, f"item assignment on a place of type {cur.typ}")
+
+        def inner():
+            env2, line = self.bind(tg.value, new(), env, st)
+            return line + "\n" + self.block(rest, env2, frame)
+        return self.with_hoists(hs, env, frame, inner)
+
+    def state_call(self, call, env, frame, k):
+        """a call that passes the attribute state on (spec `state_calls`); `k(value or None, env)` renders what follows"""
+        c = self.state_calls[self.key(call.func)]
+        if call.keywords or len(call.args) != len(c["args"]):
+            self.bad(call, f"call of `{self.key(call.func)}` that does not give exactly the {len(c['args'])} positional arguments of its spec entry")
+        saved, self.hoists = self.hoists, []
+        try:
+            args = [self.coerce(self.expr(a, env), t, call) for a, t in zip(call.args, c["args"])]
+            hs = self.hoists
+        finally:
+            self.hoists = saved
+        ret = c.get("ret", "None")
+        place_node = lambda key: ast.parse(key, mode="eval").body
+
+        def value(name):
+            return None if ret == "None" else V(name, ret)
+
+        def inner():
+            self.raises = True
+            vn = self.fresh("py_v") if ret != "None" else "_"
+            if c["kind"] == "shared":
+                rp = [self.read_place(pk, env, call).term for pk in c.get("rplaces", [])]
+                cur = env["__st"]
+                term = " ".join([c["lean"]] + list(c.get("exts", [])) + args + rp + [cur.term])
+                env2 = dict(env)
+                env2["__st"] = V("st'", cur.typ)
+                return (f"PyRt.tryR ({term}) (fun py_e st' => {frame.raise_('py_e', env2)}) (fun {vn} st' =>\n"
+                        + ind(k(value(vn), env2)) + ")")
+            if c["kind"] == "method":
+                recv = self.read_place(c["recv"], env, call, raw=True)
+                if not recv.typ.startswith("Option "):
+                    self.bad(call, "a method receiver place whose type is not Option")
+                xt = elem_type(recv.typ)
+                d = self.fresh("py_d")
+                env2, line = self.bind(place_node(c["recv"]), V(d + "'", xt), env, call)
+                term = " ".join([c["lean"], d] + args)
+                return (f"PyRt.tryE (PyRt.attrE {recv.term}) (fun py_e => {frame.raise_('py_e', env)}) (fun {d} =>\n"
+                        + ind(f"PyRt.tryR ({term}) (fun py_e {d}' =>\n" + ind(line + "\n" + frame.raise_('py_e', env2), 4)
+                              + f") (fun {vn} {d}' =>\n" + ind(line + "\n" + k(value(vn), env2)) + ")") + ")")
+            if c["kind"] == "ext":
+                rp = [self.read_place(pk, env, call, raw=True).term for pk in c.get("reads", [])]
+                w = self.fresh("py_w")
+                env2, lines = env, []
+                n = len(c["writes"])
+                for j, pk in enumerate(c["writes"]):
+                    proj = w if n == 1 else (w + ".2" * j + (".1" if j < n - 1 else ""))
+                    env2, line = self.bind(place_node(pk), V(proj, self.places[pk][2]), env2, call)
+                    lines.append(line)
+                pre = "".join(l + "\n" for l in lines)
+                term = " ".join([c["lean"]] + args + rp)
+                return (f"PyRt.tryR ({term}) (fun py_e {w} =>\n" + ind(pre + frame.raise_('py_e', env2), 4)
+                        + f") (fun {vn} {w} =>\n" + ind(pre + k(value(vn), env2)) + ")")
+            self.bad(call, f"state call entry of kind {c['kind']!r}")
         return self.with_hoists(hs, env, frame, inner)
 
     def table_set(self, st, name_node, key_node, val_node, rest, env, frame, key_first=False):
@@ -1064,6 +1229,8 @@ class Translator:
 
     def s_Expr(self, st, rest, env, frame):
         c0 = st.value
+        if isinstance(c0, ast.Call) and self.key(c0.func) in self.state_calls:
+            return self.state_call(c0, env, frame, lambda v, env1: self.block(rest, env1, frame))
         if (isinstance(c0, ast.Call) and isinstance(c0.func, ast.Attribute) and c0.func.attr == "append" and len(c0.args) == 1
                 and not c0.keywords and isinstance(c0.func.value, ast.Name) and c0.func.value.id in env
                 and env[c0.func.value.id].typ.startswith("List ") and c0.func.value.id in self.spec.get("locals", {})):
@@ -1118,6 +1285,26 @@ class Translator:
         self.bad(st, "expression statement (a call with effects the spec does not name)")
 
     def s_If(self, st, rest, env, frame):
+        if isinstance(st.test, ast.BoolOp):
+            mark = (self.tmp, self.raises)
+            try:
+                self.eval(st.test, env)
+            except Untranslatable as e:
+                if "where Python may skip it" not in e.reason:
+                    raise
+                # `if A and B: X else: Y` is `if A: (if B: X else: Y) else: Y` (likewise `or`): B is evaluated only where
+                # Python evaluates it
+                self.tmp, self.raises = mark
+                first, more = st.test.values[0], st.test.values[1:]
+                later = more[0] if len(more) == 1 else ast.BoolOp(op=st.test.op, values=more)
+                inner_if = ast.If(test=later, body=st.body, orelse=st.orelse)
+                new = (ast.If(test=first, body=[inner_if], orelse=st.orelse) if isinstance(st.test.op, ast.And)
+                       else ast.If(test=first, body=st.body, orelse=[inner_if]))
+                for n in (inner_if, new):
+                    ast.copy_location(n, st)
+                    ast.fix_missing_locations(n)
+                return self.block([new] + list(rest), env, frame)
+            self.tmp, self.raises = mark
         c, hs = self.eval(st.test, env)
         if is_int(c.typ):
             c = V(f"(decide ({c.term} ≠ 0))", "Bool")                 # an int is true iff it is not 0
@@ -1141,9 +1328,16 @@ class Translator:
                 for t in (s.targets if isinstance(s, ast.Assign) else [s.target]):
                     if isinstance(t, ast.Subscript) and isinstance(t.value, ast.Name) and self.key(t) not in self.places:
                         t = t.value
+                    if isinstance(t, ast.Subscript) and self.key(t) not in self.places and self.key(t.value) in self.places:
+                        t = t.value
                     key = t.id if isinstance(t, ast.Name) else ("place", self.key(t))
+                    if isinstance(key, tuple) and key[1] in self.places and self.places[key[1]][3] == "s":
+                        key = "__st"
                     if key not in acc:
                         acc.append(key)
+                if (isinstance(s, ast.Assign) and isinstance(s.value, ast.Call) and self.key(s.value.func) in self.state_calls
+                        and self.state_key(s.value) not in acc):
+                    acc.append(self.state_key(s.value))
             elif isinstance(s, ast.If):
                 self.assigned(s.body, acc)
                 self.assigned(s.orelse, acc)
@@ -1154,13 +1348,29 @@ class Translator:
                 self.assigned(s.body, acc)
             elif isinstance(s, ast.Expr) and self.key(s) in self.actions and "__acts" not in acc:
                 acc.append("__acts")
+            elif isinstance(s, ast.Expr) and isinstance(s.value, ast.Call) and self.key(s.value.func) in self.state_calls:
+                if self.state_key(s.value) not in acc:
+                    acc.append(self.state_key(s.value))
+            elif isinstance(s, ast.Try):
+                self.assigned(s.body, acc)
+                for h in s.handlers:
+                    self.assigned(h.body, acc)
             elif (isinstance(s, ast.Expr) and isinstance(s.value, ast.Call) and isinstance(s.value.func, ast.Attribute)
                   and s.value.func.attr in ("extend", "append", "update") and isinstance(s.value.func.value, ast.Name)):
                 if s.value.func.value.id not in acc:
                     acc.append(s.value.func.value.id)
-            elif self.append_call(s) is not None and ("place", self.append_call(s)[0]) not in acc:
-                acc.append(("place", self.append_call(s)[0]))
+            elif self.append_call(s) is not None:
+                pk = self.append_call(s)[0]
+                key = "__st" if self.places[pk][3] == "s" else ("place", pk)
+                if key not in acc:
+                    acc.append(key)
         return acc
+
+    def state_key(self, call):
+        """what a state call assigns (for joins and loop states): the state record"""
+        if self.state is None:
+            self.bad(call, "a state call in a definition whose spec has no `state` record")
+        return "__st"
 
     def try_join(self, c, body, orelse, env, node):
         """both branches only assign: `let vars := if c then … else …`; None when a branch can leave or raise"""
@@ -1323,15 +1533,19 @@ class Translator:
             has_ret = has_ret or isinstance(n, ast.Return)
         step = has_ret or fuel is not None
         mod = [m for m in self.assigned(st.body, []) if m in env]      # loop state; other assigned names are loop-local
+        # attribute state that must survive an exception raised in a later round: such a loop is left through `.ret`
+        # with what the enclosing frame makes of the exception and the state at that moment
+        keeps = (self.spec.get("raise_state") is not False
+                 and any(m in ("__st", "__acts") or isinstance(m, tuple) for m in mod))
         envl = dict(env)
-        for _ in range(3):
+        for _ in range(4):
             # types / signs of the state at the head of the body must be what the body leaves (loop invariant)
             envb = dict(envl)
             for n, t, nn in bound:
                 envb[n] = V(lname(n), t, nn)
             for m in mod:
                 envb[m] = V(self.state_name(m), envl[m].typ, envl[m].nn)
-            lf = LoopFrame(self, mod, frame if step else None)
+            lf = LoopFrame(self, mod, frame if step else None, keeps)
             saved = (self.tmp, self.raises)
             self.raises = False
             cond = None
@@ -1341,6 +1555,10 @@ class Translator:
                     self.bad(st.test, f"condition of type {cond.typ}")
             body = self.block(st.body, envb, lf)
             body_raises = self.raises
+            if keeps and body_raises and not step:
+                step = True
+                self.tmp, self.raises = saved
+                continue
             stable = all(self.join_type(envl[m].typ, t, st) == envl[m].typ and (not envl[m].nn or n)
                          for m, (t, n) in zip(mod, lf.result_types()))
             if stable:
@@ -1386,6 +1604,8 @@ class Translator:
     def state_name(self, m):
         if m == "__acts":
             return "acts'"
+        if m == "__st":
+            return "st'"
         if isinstance(m, tuple):
             return lname(self.places[m[1]][1]) + "'"
         return lname(m)
@@ -1472,8 +1692,8 @@ class JoinFrame(Frame):
 class LoopFrame(Frame):
     """a loop body: ends in the state tuple (wrapped in `.ok` when the body can raise; `.ok (.next …)` in a loop that can
     be left by `return` or is a `while`: there `return` ends in `.ok (.ret <the definition's result>)`)"""
-    def __init__(self, tr, mod, parent=None):
-        self.tr, self.mod, self.ends, self.parent = tr, mod, [], parent
+    def __init__(self, tr, mod, parent=None, keeps=False):
+        self.tr, self.mod, self.ends, self.parent, self.keeps = tr, mod, [], parent, keeps
 
     def fall(self, env):
         self.ends.append(dict(env))
@@ -1485,7 +1705,10 @@ class LoopFrame(Frame):
         return f".ok (.ret {self.parent.ret(val, env, node)})"
 
     def cont(self, env, node): self.tr.bad(node, "continue inside a loop body")
-    def raise_(self, e, env): return f".error {e}"
+    def raise_(self, e, env):
+        if self.keeps and self.parent is not None:
+            return f".ok (.ret {self.parent.raise_(e, env)})"
+        return f".error {e}"
 
     def brk(self, env, node):
         if self.parent is None:
@@ -1521,6 +1744,10 @@ class TopFrame(Frame):
 
     def state(self, env):
         tr = self.tr
+        if tr.state is not None:
+            if tr.outs or tr.actions:
+                tr.bad(None, "a definition over a state record with result locals or actions")
+            return env["__st"].term
         fields = []
         for k, (_, ln, typ, mode) in tr.places.items():
             if mode != "r":
@@ -1671,7 +1898,7 @@ def translate(func, spec):
     for attempt in (True, False):
         tr = Translator(fname, spec)
         text = _translate(tr, func, spec, attempt)
-        if tr.raises == attempt:
+        if tr.raises == attempt or spec.get("always_res"):
             return text
     return text
 
@@ -1695,9 +1922,10 @@ def _translate(tr, func, spec, assume_raises):
                 # a parameter that is never used is fine; a used one shows up as an unknown name
                 pass
     tr.assigned_anywhere = {n.id for n in ast.walk(func) if isinstance(n, ast.Name) and isinstance(n.ctx, ast.Store)}
-    tr.reserved = {p[1] for p in tr.places.values()} | {p[1] + "'" for p in tr.places.values()}
+    tr.reserved = ({p[1] for p in tr.places.values() if p[3] != "s"} | {p[1] + "'" for p in tr.places.values() if p[3] != "s"}
+                   | ({tr.state["param"]} if tr.state is not None else set()))
     env = {}
-    binders = [(n, t) for n, t in spec.get("externals", [])]         # functions outside the model: parameters
+    binders = [(n, RawType(t)) for n, t in spec.get("externals", [])]         # functions outside the model: parameters
     for n, t in params:
         if not lname_ok(n):
             tr.bad(func, f"parameter `{n}` clashes with a name of the emitted text")
@@ -1705,13 +1933,19 @@ def _translate(tr, func, spec, assume_raises):
         binders.append((lname(n), t))
     place_binders = []
     for k, (_, ln, typ, mode) in tr.places.items():
+        if mode == "s":
+            continue
         v = V(lname(ln), typ)
         env[("place", k)] = v
         place_binders.append((k, lname(ln), typ))
+    if tr.state is not None:
+        env["__st"] = V(tr.state["param"], tr.state["type"])
+    elif any(p[3] == "s" for p in tr.places.values()):
+        tr.bad(func, "places of mode \"s\" in a spec without a `state` record")
     if tr.actions:
         env["__acts"] = V(f"([] : List {spec['action_type']})", f"List {spec['action_type']}")
     tr.raises_final = assume_raises
-    stateful = any(p[3] != "r" for p in tr.places.values()) or bool(tr.outs) or bool(tr.actions)
+    stateful = any(p[3] != "r" for p in tr.places.values()) or bool(tr.outs) or bool(tr.actions) or tr.state is not None
     kind, body = ("stmts", func.body) if not fragment else select(func, sel, fname)
     if kind == "expr":
         tr.hoists = []
@@ -1727,14 +1961,15 @@ def _translate(tr, func, spec, assume_raises):
         top = TopFrame(tr, fragment)
         text = tr.block(list(body), env, top)
         vt = tr.value_type
+        stn = f"{tr.name}.St" if tr.state is None else ty_arg(tr.state["type"])
         if stateful:
-            plain = f"{tr.name}.St" if vt == "Unit" else f"({ty_arg(vt)} × {tr.name}.St)"
-            rtype = ((f"Except PyRt.Err {plain}" if spec.get("raise_state") is False else f"PyRt.Res {tr.name}.St {ty_arg(vt)}")
-                     if tr.raises_final else (f"{tr.name}.St" if vt == "Unit" else f"{ty_arg(vt)} × {tr.name}.St"))
+            plain = stn if vt == "Unit" else f"({ty_arg(vt)} × {stn})"
+            rtype = ((f"Except PyRt.Err {plain}" if spec.get("raise_state") is False else f"PyRt.Res {stn} {ty_arg(vt)}")
+                     if tr.raises_final else (stn if vt == "Unit" else f"{ty_arg(vt)} × {stn}"))
         else:
             rtype = f"Except PyRt.Err {ty_arg(vt)}" if tr.raises_final else vt
     out = []
-    if stateful and kind != "expr":
+    if stateful and kind != "expr" and tr.state is None:
         fields = [f"  {ln} : {ty(typ)}" for _, ln, typ, mode in tr.places.values() if mode != "r"]
         fields += [f"  {n} : {ty(t)}" for n, t in tr.outs]
         if tr.actions:
@@ -1748,7 +1983,9 @@ def _translate(tr, func, spec, assume_raises):
         used = re.search(r"(?<![\w.'«])" + re.escape(ln) + r"(?![\w'»]| :=)", text) is not None
         if tr.places[k][3] == "r" or k in tr.init_used or used:
             binders.append((ln, typ))
-    sig = " ".join(f"({n} : {ty(t)})" for n, t in binders)
+    if tr.state is not None:
+        binders.append((tr.state["param"], tr.state["type"]))
+    sig = "".join(f"{{{t} : Type}} " for t in spec.get("tparams", ())) + " ".join(f"({n} : {ty(t)})" for n, t in binders)
     out.append(f"def {tr.name} {sig} : {rtype} :=\n{ind(text)}\n")
     return "\n".join(out)
 
